@@ -31,9 +31,10 @@ def ops_strategy():
 
     ncid = st.tuples(st.just("ncid"), st.integers(0, 12), st.sampled_from(["0", "0", "seq", "seq", "seq-1", "seq-2", "cur", "cur+1"]))
     ret = st.tuples(st.just("retire"), st.integers(0, 12))
+    ret2 = st.tuples(st.just("retire_again"), st.integers(0, 12))
     sw = st.tuples(st.just("switch"), st.integers(0, 12))
     simple = st.sampled_from([("local_change",), ("ack",), ("ack",), ("lose",), ("timer",), ("ping_each",), ("write",), ("bulk",), ("bulk",), ("spurious_loss",), ("spurious_loss",)])
-    return st.lists(st.one_of(ncid, ncid, ncid, ret, sw, simple, simple), min_size=2, max_size=14)
+    return st.lists(st.one_of(ncid, ncid, ncid, ret, ret, ret2, sw, simple, simple), min_size=2, max_size=14)
 
 
 class Model:
@@ -217,6 +218,15 @@ def run_history(ctx, case, check=True):
                     m.nontrivial = True
                 sut_call("receive_datagram", tk.send_frames, [{"name": "retire_connection_id", "seq": seq}])
                 m.sut_retired.add(seq)
+            elif kind == "retire_again":
+                # a retransmitted RETIRE_CONNECTION_ID for an ID that was retired before: it changes nothing
+                gone = sorted(m.sut_retired)
+                if gone:
+                    seq = gone[op[1] % len(gone)]
+                    if m.sut_issued.get(seq) != tk.dcid:
+                        sut_call("receive_datagram", tk.send_frames, [{"name": "retire_connection_id", "seq": seq}])
+                        cls.add("retire-repeated")
+                        m.nontrivial = True
             elif kind == "switch":
                 out = sorted(s for s in m.sut_issued if s not in m.sut_retired)
                 if out:
